@@ -54,7 +54,9 @@ class Namespace(pydsdl.Any):
             self._namespace_components.append(component)
         self._full_namespace = ".".join(self._namespace_components_stropped)
         self._output_folder = pathlib.Path(base_output_path / pathlib.PurePath(*self._namespace_components_stropped))
-        output_stem = target_language.get_config_value(Language.WKCV_NAMESPACE_FILE_STEM, self.DefaultOutputStem)
+        output_stem = _checked_namespace_file_stem(
+            target_language.get_config_value(Language.WKCV_NAMESPACE_FILE_STEM, self.DefaultOutputStem)
+        )
         output_path = self._output_folder / pathlib.PurePath(output_stem)
         self._base_output_path = base_output_path
         self._output_path = output_path.with_suffix(
@@ -389,3 +391,30 @@ def build_namespace_tree(
 
 
 # +---------------------------------------------------------------------------+
+
+
+def _checked_namespace_file_stem(stem: str) -> str:
+    """
+    The namespace file stem (``namespace_file_stem`` / ``--namespace-output-stem``) names ONE file inside the output
+    folder of each namespace. Anything that is not a plain file name would move the namespace files somewhere else:
+    a path separator creates or leaves folders, ``..`` climbs out of the output directory and an absolute path
+    replaces the folder altogether (every namespace would then be written to the same file).
+
+    :param str stem: The configured stem.
+    :return: The stem, unchanged.
+    :raises ValueError: If the stem is empty, ``.`` or ``..``, contains a path separator or is an absolute path.
+    """
+    import os  # pylint: disable=import-outside-toplevel
+
+    separators = {"/", os.sep} | ({os.altsep} if os.altsep else set())
+    if (
+        not isinstance(stem, str)
+        or stem in ("", ".", "..")
+        or any(separator in stem for separator in separators)
+        or pathlib.PurePath(stem).is_absolute()
+    ):
+        raise ValueError(
+            f"The namespace file stem {stem!r} (namespace_file_stem / --namespace-output-stem) must be a plain file name: "
+            "not empty, not '.' or '..', without path separators and not an absolute path."
+        )
+    return stem
